@@ -1,5 +1,6 @@
 import Cutplace.Proofs.RangeLemmas
 import Cutplace.Proofs.RangeParse
+import Cutplace.Proofs.DecRange
 /-
 C01  Range descriptions accept exactly the values they describe.
 Property theorems only; helper lemmas live in `Cutplace/Proofs/`.
@@ -119,5 +120,99 @@ example :
 example : Accepts [.upto (-5), .single 0, .closed 3 9] 4 ∧ ¬ Accepts [.upto (-5), .single 0, .closed 3 9] 2 ∧
     lowerLimitOf (denote [.upto (-5), .single 0, .closed 3 9]) = none ∧
     upperLimitOf (denote [.upto (-5), .single 0, .closed 3 9]) = some 9 := by decide
+
+/-! ### decimal ranges -/
+
+/-- `<=` between two `decimal.Decimal` values, as the model of `DecimalRange` evaluates it (coefficients scaled to the
+smaller exponent), is `≤` between the rational numbers `± coefficient * 10^exponent` they denote - for every
+coefficient and every exponent, positive or negative. -/
+theorem C01_decimal_order (n1 : Bool) (m1 : Nat) (e1 : Int) (n2 : Bool) (m2 : Nat) (e2 : Int) :
+    Dec.le? (.fin n1 m1 e1) (.fin n2 m2 e2) = some (decide ((Dec.fin n1 m1 e1).toRat ≤ (Dec.fin n2 m2 e2).toRat)) :=
+  le?_fin n1 m1 e1 n2 m2 e2
+
+/-- **Decimal ranges obey the same rule**: a decimal value is accepted by the stored items of a decimal range iff it
+lies inside at least one item, both limits inclusive, an omitted limit meaning unbounded, in the order of the rational
+numbers - whatever the number of fraction digits limits and value are written with (`1.5`, `1.50` and `1.500` are the
+same value). -/
+theorem C01_decimal_validate_iff (d : DRangeDesc) (v : DLit) :
+    ({ items := some (ddenote d) } : DecimalRange).validate v.toDec = some true ↔ DAccepts d v.toRat := by
+  simp only [DecimalRange.validate, dValidateLoop_denote, Option.some.injEq, decide_eq_true_eq]
+
+/-- a decimal range never fails with `InvalidOperation` on a literal value: it accepts or refuses -/
+theorem C01_decimal_validate_total (d : DRangeDesc) (v : DLit) :
+    ∃ b, ({ items := some (ddenote d) } : DecimalRange).validate v.toDec = some b :=
+  ⟨_, dValidateLoop_denote d v⟩
+
+/-- the overall lower limit of a decimal range is absent iff some item is open below -/
+theorem C01_decimal_lower_absent_iff (its : List DItem) (h : its ≠ []) :
+    dLowerLimitOf its = none ↔ ∃ it ∈ its, it.lo = none := by
+  cases its with
+  | nil => exact absurd rfl h
+  | cons it rest =>
+    unfold dLowerLimitOf dLowerLimitLoop
+    cases hlo : it.lo with
+    | none => simp [dLowerLoop_none, hlo]
+    | some l => simp [dLowerLoop_some_none_iff, hlo]
+
+/-- otherwise it is the minimum of the lower limits, in the order of the rationals, and is attained -/
+theorem C01_decimal_lower_is_min (its : List DItem) (hf : AllFinite its) (m : Dec) (h : dLowerLimitOf its = some m) :
+    (∀ it ∈ its, ∃ l, it.lo = some l ∧ m.toRat ≤ l.toRat) ∧ ∃ it ∈ its, it.lo = some m := by
+  cases its with
+  | nil => simp [dLowerLimitOf, dLowerLimitLoop] at h
+  | cons it rest =>
+    unfold dLowerLimitOf dLowerLimitLoop at h
+    cases hlo : it.lo with
+    | none => simp [hlo, dLowerLoop_none] at h
+    | some l =>
+      simp [hlo] at h
+      have hlf : l.isFin = true := (hf it List.mem_cons_self).1 l hlo
+      obtain ⟨h1, h2, h3⟩ := dLowerLoop_some_spec l m rest hlf (fun o ho => hf o (List.mem_cons_of_mem _ ho)) h
+      refine ⟨?_, ?_⟩
+      · intro it' hit'
+        rcases List.mem_cons.mp hit' with rfl | hr
+        · exact ⟨l, hlo, h1⟩
+        · exact h2 it' hr
+      · rcases h3 with rfl | ⟨it', hit', heq⟩
+        · exact ⟨it, by simp, hlo⟩
+        · exact ⟨it', by simp [hit'], heq⟩
+
+theorem C01_decimal_upper_absent_iff (its : List DItem) (h : its ≠ []) :
+    dUpperLimitOf its = none ↔ ∃ it ∈ its, it.hi = none := by
+  cases its with
+  | nil => exact absurd rfl h
+  | cons it rest =>
+    unfold dUpperLimitOf dUpperLimitLoop
+    cases hhi : it.hi with
+    | none => simp [dUpperLoop_none, hhi]
+    | some l => simp [dUpperLoop_some_none_iff, hhi]
+
+theorem C01_decimal_upper_is_max (its : List DItem) (hf : AllFinite its) (m : Dec) (h : dUpperLimitOf its = some m) :
+    (∀ it ∈ its, ∃ u, it.hi = some u ∧ u.toRat ≤ m.toRat) ∧ ∃ it ∈ its, it.hi = some m := by
+  cases its with
+  | nil => simp [dUpperLimitOf, dUpperLimitLoop] at h
+  | cons it rest =>
+    unfold dUpperLimitOf dUpperLimitLoop at h
+    cases hhi : it.hi with
+    | none => simp [hhi, dUpperLoop_none] at h
+    | some l =>
+      simp [hhi] at h
+      have hlf : l.isFin = true := (hf it List.mem_cons_self).2 l hhi
+      obtain ⟨h1, h2, h3⟩ := dUpperLoop_some_spec l m rest hlf (fun o ho => hf o (List.mem_cons_of_mem _ ho)) h
+      refine ⟨?_, ?_⟩
+      · intro it' hit'
+        rcases List.mem_cons.mp hit' with rfl | hr
+        · exact ⟨l, hhi, h1⟩
+        · exact h2 it' hr
+      · rcases h3 with rfl | ⟨it', hit', heq⟩
+        · exact ⟨it, by simp, hhi⟩
+        · exact ⟨it', by simp [hit'], heq⟩
+
+/-- non-vacuity: `-1.50...0.25, 2` accepts -1.5 and 0.250, refuses 0.26; limits -1.50 and 2; the items are finite -/
+example :
+    let d : DRangeDesc := [.closed ⟨true, 150, 2⟩ ⟨false, 25, 2⟩, .single ⟨false, 2, 0⟩]
+    DAccepts d (DLit.toRat ⟨true, 15, 1⟩) ∧ DAccepts d (DLit.toRat ⟨false, 250, 3⟩) ∧ ¬ DAccepts d (DLit.toRat ⟨false, 26, 2⟩) ∧
+      dLowerLimitOf (ddenote d) = some (.fin true 150 (-2)) ∧ dUpperLimitOf (ddenote d) = some (.fin false 2 0) ∧
+      AllFinite (ddenote d) := by
+  refine ⟨by decide +kernel, by decide +kernel, by decide +kernel, by decide +kernel, by decide +kernel, allFinite_ddenote _⟩
 
 end Cutplace.Props
